@@ -3,7 +3,7 @@
 import os, re, sys
 VERIF = os.path.dirname(os.path.dirname(os.path.abspath(__file__)))
 GEN = os.path.join(VERIF, "lean", "GomlVerif", "Gen")
-REPO = "/repo"
+REPO = os.environ.get("GV_REPO", "/repo")
 
 def write_if_changed(name, text):
     os.makedirs(GEN, exist_ok=True)
